@@ -1,6 +1,10 @@
-import SieveModel.Model.Bytes
-import SieveModel.Model.Lexer
+import SieveModel.Model.Show
+import SieveModel.Model.TableCodec
+import SieveModel.Generated.Tables
 /-! Line-protocol driver: one request per line on stdin, one answer per line on stdout. -/
+
+structure DState where
+  table : Table := Generated.builtinTable
 
 def lexAnswer (t : Bytes) : String :=
   match Lex.lex t with
@@ -11,20 +15,31 @@ def lexAnswer (t : Bytes) : String :=
     | none => s!"ok {toks} end={r.endPos}"
     | some (p, tok) => s!"err {toks} at={p} tok={B.toHex tok}"
 
-def answer (line : String) : String :=
-  match line.splitOn " " with
-  | ["lex", h] => lexAnswer (B.ofHex h)
-  | ["lex"] => lexAnswer []
-  | _ => "bad-request"
+def hexArg (l : List String) : Bytes := match l with | [h] => B.ofHex h | _ => []
 
-partial def loop (h : IO.FS.Stream) (out : IO.FS.Stream) : IO Unit := do
+def answer (st : DState) (line : String) : DState × String :=
+  match line.splitOn " " with
+  | "lex" :: rest => (st, lexAnswer (hexArg rest))
+  | "parse" :: rest =>
+    let t := hexArg rest
+    (st, Show.outcome t (Machine.parse st.table t))
+  | ["table-reset"] => ({ st with table := Generated.builtinTable }, "ok")
+  | ["table-clear"] => ({ st with table := [] }, "ok")
+  | "table-add" :: fs =>
+    match TableCodec.defOf fs with
+    | some d => ({ st with table := st.table.register d }, "ok")
+    | none => (st, "bad-def")
+  | _ => (st, "bad-request")
+
+partial def loop (h : IO.FS.Stream) (out : IO.FS.Stream) (st : DState) : IO Unit := do
   let line ← h.getLine
   if line.isEmpty then return ()
-  let l := (line.dropRightWhile (· == '\n'))
-  out.putStrLn (answer l)
-  loop h out
+  let l := if line.endsWith "\n" then (line.dropEnd 1).toString else line
+  let (st', a) := answer st l
+  out.putStrLn a
+  loop h out st'
 
 def main : IO Unit := do
   let out ← IO.getStdout
-  loop (← IO.getStdin) out
+  loop (← IO.getStdin) out {}
   out.flush
